@@ -170,7 +170,7 @@ func init() {
 		Assumptions: []string{"a panic of EncodeSrc is taken as 'refused' at API level; at session level a refusal must be a reported error with the process and session still usable"},
 		Families: []core.Family{
 			{Name: "sweep", Count: func(string) int { return nblocks }, Run: c15Sweep},
-			{Name: "compose", Count: countFn(20000, 2000000), Run: c15Compose},
+			{Name: "compose", Count: countFn(100000, 2000000), Run: c15Compose},
 			{Name: "funclayout", Count: func(string) int { return 10 * 9 * 9 }, Run: c15Func},
 			{Name: "history", Count: countFn(40, 120), Run: c15History},
 		},
